@@ -458,6 +458,10 @@ fn segment_menu() -> Vec<&'static str> {
 
 /// World for the API part: TA -> parent -> ca (ROAs, ASPA, router key), other.
 /// Returns the body fixtures by name.
+pub fn build_api_fixture_pub() -> Result<BTreeMap<String, Value>, String> {
+    build_api_fixture()
+}
+
 fn build_api_fixture() -> Result<BTreeMap<String, Value>, String> {
     use crate::ops::Op;
     let mut w = World::build_w2(WorldCfg::default(), res("AS65000-AS65010", "10.0.0.0/16", "2001:db8::/48")).map_err(|e| e.to_string())?;
